@@ -6,7 +6,7 @@
 (* whose magnitudes and offsets are the ones Trace_Units derived from the unit symbols            *)
 (* (unit_table).  One event per class carries the worst distance; this module is the acceptance   *)
 (* rule: budget, exact zero, exact sign symmetry, finiteness, agreement of the compile-time and   *)
-(* run-time entry points, agreement within one ulp of every sequence overload (std::array,         *)
+(* run-time entry points, agreement (two neighbouring numbers) of every sequence overload (std::array,         *)
 (* std::vector, planar vector, vector, symmetric dyad, dyad; by value and in place) with the scalar overload, and - as *)
 (* vacuity guards - which value classes and units were exercised.                                  *)
 EXTENDS Integers, Sequences, FiniteSets, Json, IOUtils, TLC
@@ -38,7 +38,7 @@ TConv == LET r == Events[l] IN
                       <<r.affine \/ r.zero = 1, "conv_zero_not_zero">>,
                       <<r.affine \/ r.sym = 1, "conv_sign_asymmetric">>,
                       <<r.entry = "static" => r.vs_runtime <= BudgetEntry, "conv_static_vs_runtime">>,
-                      <<r.seq_diff = 0, "conv_sequence_overload">>,      \* array / std::vector / vector / tensor overloads agree with the scalar overload per component within one ulp (seq_diff counts components further away)
+                      <<r.seq_diff = 0, "conv_sequence_overload">>,      \* array / std::vector / vector / tensor overloads agree with the scalar overload per component within two representable neighbours (seq_diff counts components further away)
                       <<ClassesOK(r.classes), "inconclusive_value_classes">> >>
          failed == SelectSeq(checks, LAMBDA c : ~c[1])
      IN bad' = IF Len(bad) >= 400 THEN bad ELSE bad \o [i \in 1..Len(failed) |-> V(failed[i][2], r)]
